@@ -173,6 +173,15 @@ func ReadJournal(path string) (ordinal int64, input string, ok bool) {
 
 func (b *B) Ordinal() int64 { return b.ordinal }
 
+// ViolationCount is the number of violations recorded so far in this batch.
+func (b *B) ViolationCount() int64 {
+	var n int64
+	for _, v := range b.res.Violations {
+		n += v.Count
+	}
+	return n
+}
+
 // Count adds to an observation histogram.
 func (b *B) Count(key string) { b.res.Hist[key]++ }
 
